@@ -193,7 +193,11 @@ def build(r):
         args = ", ".join(f"%arg{i} : {t}" for i, t in enumerate(tys))
         L.append(f"  func.func public @main({args}) {{")
         L.append("    %z = arith.constant 0 : i32")
-        L.append(f'    "dart.operation"({", ".join(f"%arg{i}" for i in range(len(shapes)))}) <{{patterns = [{", ".join(maps)}], accelerator = "snax_gemmx", '
+        opnds = [f"%arg{i}" for i in range(len(shapes))]
+        if r.get("gram") and k in ("matmul", "gemm") and r.get("b_transposed") and shapes[0] == shapes[1] and tys[0] == tys[1]:
+            # D = X * X^T: one memref value feeds both inputs, with different access patterns
+            opnds[1] = opnds[0]
+        L.append(f'    "dart.operation"({", ".join(opnds)}) <{{patterns = [{", ".join(maps)}], accelerator = "snax_gemmx", '
                  f'operandSegmentSizes = array<i32: {n_in}, 1>}}> ({{')
         L.append("    ^bb0(" + ", ".join(f"%s{i} : !dart.stream<{t}>" for i, t in enumerate(etys)) + "):")
         if r.get("qmac") and k != "conv":
@@ -548,6 +552,8 @@ def prop(r):
     nsteps = next(e for e in expected if e is not None).shape[0]
     small = any(e < 8 for _, e in descs)
     cls = ["kind:" + r["kind"], "layout:" + r["layout"], "steps:" + ("1" if nsteps == 1 else "2+"), "tdims:%d" % (len(bounds) - n_sp)]
+    if len(set(id(o) for o in sched.operands)) < len(sched.operands):
+        cls.append("one-buffer-feeds-two-operands")
     cls += sorted({"ref:" + d for d, _ in descs})
     if any(g - {1} for g in fill.values()):
         cls.append("spatial_fillup")
@@ -602,6 +608,11 @@ def recipe(draw, tier):
         r["b_transposed"] = draw(st.booleans())
         # plain strided layouts are almost always refused by the conversion for gemmx (its 8x8 tiles are not contiguous): favour tiled ones
         r["given"] = [draw(_given(2, 3, 8)) for _ in range(4)]
+        if r["b_transposed"] and layout in ("none", "given") and draw(st.integers(0, 2)) == 0:
+            # Gram matrix: the same buffer is both inputs (needs equal types: square-compatible shapes and one layout)
+            r["gram"] = True
+            r["N"] = r["M"]
+            r["given"][1] = dict(r["given"][0])
         if not r["b_transposed"] and draw(st.integers(0, 3)) != 0:
             # B is read along K: store it with K fastest (otherwise the access is not contiguous and the case is outside the domain)
             r["given"][1]["perm"] = [1, 0]
